@@ -156,6 +156,10 @@ def handle (req : Json) : Json :=
       let v ← valOfJson (← req.getObjVal? "val")
       let t ← tyOfJson (← req.getObjVal? "ty")
       pure (Json.mkObj [("ok", match t with | some t => emptyScanOk v t | none => true)])
+    | "inlinearg" => do
+      let a ← tyOfJson (← req.getObjVal? "arg")
+      let d ← tyOfJson (← req.getObjVal? "decl")
+      pure (Json.mkObj [("accepted", match a, d with | some a, some d => inlineArgAccepted a d | _, _ => true)])
     | "nontensor" => do
       let op ← req.getObjValAs? String "op"
       pure (Json.mkObj [("outcome", match nonTensorOutcome op with
